@@ -23,7 +23,6 @@ from pathlib import Path
 
 from . import core
 
-DOTTED_SIG = "internal import of a collected path containing a dot besides the .py suffix: KeyError in compute_and_collect_exportations"
 
 
 # --------------------------------------------------------------------------------- generators
@@ -330,15 +329,10 @@ def judge_dir(ctx, drv, files, root, out_dir, cleanup="full"):
     res = run_real(root, out_dir, cleanup)
     if "exc" in res:
         what = f"TagDatabase aborted with {res['exc']}"
-        sig = None
         model = predict_abort(drv, res, root, cleanup)
-        if (res["exc"] == "KeyError" and has_dotted(files) and model is not None and model.get("exc") == "KeyError"
-                and "." in model.get("key", "")[:-3].replace("/", ".") and dotted_target(files, model.get("key", ""))):
-            sig = DOTTED_SIG
         return {"kind": "violation", "what": what, "impl": {"exc": res["exc"], "msg": res.get("exc_msg")},
-                "model": model, "spec": "C11/C14: a database with one record per program (Props/C11.lean: C11_total, false on "
-                                        "the current tree: C11_total_counterexample)",
-                "signature": sig}
+                "model": model, "spec": "C11/C14: a database with one record per program (Props/C11.lean: C11_total)",
+                "signature": None}
     if "json" not in res:
         return {"kind": "violation", "what": "get_json() is not valid JSON", "impl": res.get("json_error")}
     if res["json"] != res["memory"]:
